@@ -294,3 +294,52 @@ func (c *Cond) Broadcast() {
 	}
 	c.waiters = nil
 }
+
+// Pool replaces sync.Pool with a deterministic LIFO free list (the real one has per-P
+// caches and is drained by the garbage collector: its behaviour is not replayable).
+type Pool struct {
+	New   func() any
+	items []any
+	owner *Exec
+	real  sync.Pool
+}
+
+func (p *Pool) Get() any {
+	if cx == nil {
+		if v := p.real.Get(); v != nil {
+			return v
+		}
+		if p.New != nil {
+			return p.New()
+		}
+		return nil
+	}
+	if p.owner != cx {
+		p.owner, p.items = cx, nil
+	}
+	Yield("Pool.Get")
+	if n := len(p.items); n > 0 {
+		v := p.items[n-1]
+		p.items = p.items[:n-1]
+		return v
+	}
+	if p.New != nil {
+		return p.New()
+	}
+	return nil
+}
+
+func (p *Pool) Put(v any) {
+	if cx == nil {
+		p.real.Put(v)
+		return
+	}
+	if cx.cur == nil || cx.cur.killed {
+		return
+	}
+	if p.owner != cx {
+		p.owner, p.items = cx, nil
+	}
+	Yield("Pool.Put")
+	p.items = append(p.items, v)
+}
